@@ -7,8 +7,6 @@ import (
 	"sync/atomic"
 	"time"
 
-	clocktesting "k8s.io/utils/clock/testing"
-
 	"github.com/dapr/kit/events/ratelimiting"
 )
 
@@ -28,8 +26,6 @@ func runC09(s *sess) map[string]any {
 	rounds := s.rounds(2500)
 	done := 0
 	t0 := time.Date(2024, 1, 1, 0, 0, 0, 0, time.UTC)
-	watchClock, stopNudger := nudger()
-	defer stopNudger()
 	for round := 0; round < rounds && s.more(); round++ {
 		var g group
 		variant := round + s.seed
@@ -45,8 +41,7 @@ func runC09(s *sess) map[string]any {
 			s.bad("coalescing/constructor-refused-valid-options", err.Error(), round)
 			break
 		}
-		clk := clocktesting.NewFakeClock(t0)
-		watchClock(clk)
+		clk := newNBClock(t0) // (its timers fire at once when already due: no nudging needed)
 		rl.(ratelimiting.RateLimiterWithTicker).WithTicker(clk)
 
 		ctx, cancel := context.WithCancel(context.Background())
